@@ -14,13 +14,18 @@ C30 driver (stateful).  Case lines (strings hex, `-` empty string, `_` empty lis
   conc-open <n> <host> <backends>                      concurrent TrackConnection/close    → peak= mid= final= least=
   conc-rr <n> <k> <host> <backends>                    concurrent round-robin picks        → counts=<b=c,…> next=<b>
   conc-rand <n> <k> <backends>                         concurrent random picks             → member
+  fopen <strategy> <host> <routeHost> <tok,…> <mode>    the REAL lite.Forward: tokens L<i> = live loopback backend i, X<j> = an
+        address whose dial fails; mode ok | okempty | okbuf (buffered client bytes) | flusherr | flusherrdata (ReadBuffered
+        reports a pending read error); observed once Forward has returned or is piping
+        → end=<none|returned:L<i>|open:L<i>> active=<n> cnt=<c0,c1,c2>[ slot=<k>]
+  fclose <slot>                                        close that forwarded connection, wait for Forward → active=<n> cnt=<…>
   conc-ctr <rounds> <host> <backends>                  counter-drift probe: per backend one connection held; each round
         closes it while the next one opens (all backends at once); counters read at every barrier
         → barriers=<R> open=1 counts=<b:min:max,…> active=<min>:<max> final=<b:count,…> factive=<n>
 <parse>: `,`-separated `<addr>=!` | `<addr>=<parsed>:<port>` (Go's netutil.Parse / HostPort per address).
 The model output is the REPAIRED model's; random attempts are accepted as traces (any order the model allows).
 Verdict signatures: backend-tried-twice, attempt-never-ends, failed-before-all-tried, alien-backend,
-dial-after-success, strategy-order, active-count, rr-lost-update, rng-panic, counter-drift.
+dial-after-success, strategy-order, active-count, rr-lost-update, rng-panic, counter-drift, forward-leak.
 -/
 namespace Gate.C30
 open Gate
@@ -55,6 +60,9 @@ structure DState where
   /-- the implementation's slots as reported by its own outputs (is it a TrackConnection slot?, open?) — the
       verdicts count open connections from this view, so they stay meaningful if the model has diverged -/
   islots : List (Bool × Bool) := []
+  /-- forwarded connections (fopen/fclose): the model's slots and the implementation's as reported by its outputs -/
+  fslots : List (Bytes × Addr × Bool) := []
+  ifslots : List (Addr × Bool) := []
   defective : Bool := false
 
 def openCount (d : DState) : Nat := (d.islots.filter (fun x => x.1 && x.2)).length
@@ -208,6 +216,73 @@ def judgeCtr (nb : Nat) (impl : String) : String :=
     if !okCounts || !okFinal then "viol:counter-drift" else if !okAct then "viol:active-count" else "ok"
   | _, _, _, _, _ => "viol:counter-drift"
 
+/-! ### the real Forward (fopen / fclose) -/
+
+def tokBytes (t : String) : Addr := t.toList.map (fun ch => UInt8.ofNat ch.toNat)
+def isLive (a : Addr) : Bool := a.head? == some 76          -- 'L'
+def tokParse : ParseFn := fun a => if isLive a then some (a, 1) else none
+def liveToks : List Addr := [tokBytes "L0", tokBytes "L1", tokBytes "L2"]
+def tokName (a : Addr) : String := String.ofList (a.map (fun b => Char.ofNat b.toNat))
+
+def showCounts (s : SState) : String :=
+  "active=" ++ toString (activeConnections s) ++ " cnt=" ++ ",".intercalate (liveToks.map (fun t => toString (connCount s t)))
+
+/-- the spec on the implementation's report: `ActiveConnections()` = number of forwarded connections currently open,
+    each backend's counter = number of those open to it -/
+def judgeForward (open_ : List Addr) (impl : String) : String :=
+  let w := impl.splitOn " "
+  let get := fun (k : String) => (w.filterMap (kv · k)).head?
+  match get "active=", get "cnt=" with
+  | some a, some cs =>
+    let want := liveToks.map (fun t => open_.count t)
+    let got := (cs.splitOn ",").map (fun x => x.toNat?.getD 0)
+    let av := a.toNat?.getD 0
+    if av > open_.length || (got.zip want).any (fun p => p.1 > p.2) then "viol:forward-leak"
+    else if av < open_.length || got != want then "viol:active-count"
+    else "ok"
+  | _, _ => "viol:active-count"
+
+def stepFopen (d : DState) (c : Case) (stn : String) (host routeHost : Bytes) (toks : List Addr) (mode : String) :
+    DState × String × String :=
+  let st := Strategy.ofName stn
+  let v : FwdVariant := { trackBeforeFlush := d.defective }
+  let key := fun (b : Addr) => keyOf routeHost b
+  let (fend, s1) : FwdEnd × SState :=
+    if host != routeHost then (.noRoute, d.s) else
+    let (dials, outcome) := attemptF (removeSelected tokParse) (chooseOf st d.s routeHost) (fun _ a => isLive a)
+      (toks.length + 1) 0 toks
+    let s1 := bump st d.s routeHost dials.length
+    match outcome with
+    | .connected a => (if mode.startsWith "flusherr" then .flushFailed a else .piped a, s1)
+    | _ => (.allDialsFailed, s1)
+  let s2 := forwardDuring v s1 key fend
+  let (d2, out) := match fend with
+    | .piped a =>
+      ({ d with s := s2, fslots := d.fslots ++ [(key a, a, true)] },
+        "end=open:" ++ tokName a ++ " " ++ showCounts s2 ++ " slot=" ++ toString d.fslots.length)
+    | .flushFailed a =>
+      let s3 := forwardAfter v s1 key fend
+      ({ d with s := s3 }, "end=returned:" ++ tokName a ++ " " ++ showCounts s3)
+    | _ => ({ d with s := s2 }, "end=none " ++ showCounts s2)
+  -- implementation's view
+  let w := c.impl.splitOn " "
+  let iend := ((w.filterMap (kv · "end=")).head?).getD ""
+  let islots2 := match kv iend "open:" with
+    | some t => d.ifslots ++ [(tokBytes t, true)]
+    | none => d.ifslots
+  let open_ := (islots2.filter (·.2)).map (·.1)
+  ({ d2 with ifslots := islots2 }, out, judgeForward open_ c.impl)
+
+def stepFclose (d : DState) (c : Case) (i : Nat) : DState × String × String :=
+  let d1 := match d.fslots[i]? with
+    | some (k, a, true) => { d with s := trackClose d.s k a, fslots := d.fslots.set i (k, a, false) }
+    | _ => d
+  let islots2 := match d.ifslots[i]? with
+    | some (a, _) => d.ifslots.set i (a, false)
+    | none => d.ifslots
+  let open_ := (islots2.filter (·.2)).map (·.1)
+  ({ d1 with ifslots := islots2 }, showCounts d1.s, judgeForward open_ c.impl)
+
 def step (d : DState) (c : Case) : DState × String × String :=
   match c.op, c.args with
   | "reset", _ => ({ defective := d.defective }, "ok", "-")
@@ -285,6 +360,12 @@ def step (d : DState) (c : Case) : DState × String × String :=
       let out := "counts=" ++ ",".intercalate parts ++ " next=" ++ toHex (l.getD ((n * k) % l.length) [])
       (d, out, if c.impl = out then "ok" else if c.impl = "panic" then "viol:rng-panic" else "viol:rr-lost-update")
     | _, _, _ => (d, "bad-op", "-")
+  | "fopen", [stn, h, rh, toks, mode] => match parseHex h, parseHex rh with
+    | some h, some rh => stepFopen d c stn h rh ((toks.splitOn ",").map tokBytes) mode
+    | _, _ => (d, "bad-op", "-")
+  | "fclose", [n] => match n.toNat? with
+    | some i => stepFclose d c i
+    | none => (d, "bad-op", "-")
   | "conc-ctr", [r, h, bs] => match r.toNat?, parseHex h, parseList bs with
     | some rounds, some h, some l =>
       if l.isEmpty then (d, "bad-op", "-") else
